@@ -50,7 +50,9 @@ class SimClock(object):
     def __init__(self):
         self.now = _dt.datetime(2024, 1, 1, 12, 0, 0)
         self.tick = _dt.timedelta(microseconds=137)
-        self.readings = []        # (pid, value)
+        self.readings = []        # (pid, value)   value = local time
+        self.utcoffset = _dt.timedelta(0)
+        self.nonlocal_reads = 0
 
     def read(self):
         v = self.now
@@ -65,17 +67,49 @@ class SimClock(object):
 CLOCK = SimClock()
 
 
-class _DatetimeShim(object):
-    """stands in for the ``datetime`` *class* in trashcli.empty.main"""
+class _DatetimeShimMeta(type):
+    """everything that is not a reading of the clock is the real datetime class"""
+    def __getattr__(cls, name):
+        return getattr(_dt.datetime, name)
+
+    def __call__(cls, *a, **k):
+        return _dt.datetime(*a, **k)
+
+    def __instancecheck__(cls, inst):
+        return isinstance(inst, _dt.datetime)
+
+
+class _DatetimeShim(object, metaclass=_DatetimeShimMeta):
+    """stands in for the ``datetime`` *class* in trashcli.empty.main and
+    trashcli.put.clock: the simulated machine has a local time (CLOCK.now)
+    and a UTC offset (CLOCK.utcoffset); every way of asking the time is
+    answered from them"""
     @staticmethod
     def now(tz=None):
+        v = CLOCK.read()
+        if tz is None:
+            return v
+        CLOCK.nonlocal_reads += 1
+        return (v - CLOCK.utcoffset).replace(tzinfo=_dt.timezone.utc).astimezone(tz)
+
+    @staticmethod
+    def today():
         return CLOCK.read()
 
+    @staticmethod
+    def utcnow():
+        CLOCK.nonlocal_reads += 1
+        return CLOCK.read() - CLOCK.utcoffset
 
-class _DatetimeModuleShim(object):
+
+class _ModuleShimMeta(type):
+    def __getattr__(cls, name):
+        return getattr(_dt, name)
+
+
+class _DatetimeModuleShim(object, metaclass=_ModuleShimMeta):
     """stands in for the ``datetime`` *module* in trashcli.put.clock"""
     datetime = _DatetimeShim
-    timedelta = _dt.timedelta
 
 
 class SimRandom(object):
